@@ -20,23 +20,67 @@ def consult_checked(worker, text, **kw):
     return r
 
 
-def run_multi(worker, cmds, chunk=100):
+def run_multi(worker, cmds, chunk=100, attribute=True):
     """cmds: list of lists of goal texts; each inner list is run as ONE driver
     command multi([G1,...]) (goals solved independently, side effects persist).
     -> list of lists of px.Res, aligned with cmds.  If a command ends abnormally
-    (panic, crash, hang) its goals are re-run one at a time on the (rebuilt)
-    machine so that the abnormal outcome is attributed to one goal."""
+    (panic, crash, hang): with attribute=True its goals are re-run one at a time on
+    the (rebuilt) machine so that the abnormal outcome is attributed to one goal
+    (only meaningful for stateless goals); with attribute=False every Res of the
+    command carries the abnormal signature."""
     out = []
     for i in range(0, len(cmds), chunk):
         part = cmds[i:i + chunk]
         texts = ["multi([%s]) ." % ",".join("(%s)" % g for g in goals) for goals in part]
         raws = worker.q(texts)
         for goals, x in zip(part, raws):
-            if pool.abnormal_sig(x):
-                out.append(px.run_goals(worker, ["g((%s))" % g for g in goals]))
+            a = pool.abnormal_sig(x)
+            if a:
+                if attribute:
+                    out.append(px.run_goals(worker, ["g((%s))" % g for g in goals]))
+                else:
+                    rs = []
+                    for _ in goals:
+                        r = px.Res()
+                        r.abn = a
+                        r.raw = x
+                        rs.append(r)
+                    out.append(rs)
                 continue
             out.append(split_multi(x, len(goals)))
     return out
+
+
+BATCH_MARK = "% grpe-batch\n"
+
+
+def _drop_batch_consults(worker):
+    worker.setup_consults = [c for c in worker.setup_consults if not c[0].startswith(BATCH_MARK)]
+
+
+def run_robust(worker, consults, cmds, chunk=100):
+    """Runs stateful multi-commands (each builds/uses its own renamed-apart predicates, which the
+    texts in `consults` define or declare) on a fresh machine.  If anything abnormal happens
+    (a panic rebuilds the machine, a hang restarts the worker and the pool re-runs the whole
+    request case by case without the batch's programs), all results of the pass are discarded
+    and the batch is run again one command per request with the programs persisted, so that
+    every command is observed on a machine that has all programs and is not disturbed by the
+    recovery of another command.  -> like run_multi(attribute=False)."""
+    def prep():
+        _drop_batch_consults(worker)
+        worker.new_machine()
+        for t in consults:
+            consult_checked(worker, BATCH_MARK + t, persist=True)
+    try:
+        prep()
+        r0 = worker.restarts
+        res = run_multi(worker, cmds, chunk=chunk, attribute=False)
+        if worker.restarts == r0 and not any(rs[0].abn for rs in res if rs):
+            return res
+        prep()
+        return run_multi(worker, cmds, chunk=1, attribute=False)
+    finally:
+        _drop_batch_consults(worker)
 
 
 def split_multi(x, n):
